@@ -1,8 +1,8 @@
 (* C05 - invalid qubit arguments yield errors, valid ones are accepted, nothing panics (operator level).
    Only the property theorems, closed by `exact`, with their assumptions. *)
 From Coq Require Import List NArith ZArith Bool Ring.
-From QI Require Import Base.ListAux Base.Scalar Model.Outcome Model.Validate Model.Gates Spec.Embed
-  Proofs.ValidateSpec Proofs.C01 Proofs.C05 Run.ZInst.
+From QI Require Import Base.ListAux Base.Scalar Model.Outcome Model.Validate Model.Gates Model.StateOps Model.Measure Model.Circuit Spec.Embed
+  Proofs.ValidateSpec Proofs.C01 Proofs.C05 Proofs.C05c Run.ZInst.
 Import ListNotations.
 Open Scope N_scope.
 
@@ -54,3 +54,23 @@ Example C05_nonvacuous :
   apply_op zops true OpToffoli (mkState 3 v) [0] [1; 1] = Err (InvalidNumberOfQubits 2) /\
   apply_op zops true OpH (mkState 3 v) [3] [] = Err (InvalidQubitIndex 3 3).
 Proof. vm_compute. repeat split; reflexivity. Qed.
+
+(* measurement entry points: the list is accepted iff it has at most n entries (repeats count) and every entry is below n; otherwise
+   measure and measure_n return that error in every basis *)
+Theorem C05_measure_args_iff :
+  forall n qs, measure_args n qs = None <-> (len qs <= n /\ Forall (fun q => q < n) qs).
+Proof. exact measure_args_none_iff. Qed.
+Theorem C05_measure_invalid_args_is_error :
+  forall (T : Type) (O : sops T) (of_N : N -> T) (eps tol : T) par (b : basis (T:=T)) (st : state (T:=T)) qs r e,
+  measure_args (nq st) (actual_qubits (nq st) qs) = Some e -> measure O of_N eps tol par b st qs r = Err e.
+Proof. exact @measure_invalid_args. Qed.
+Theorem C05_measure_n_invalid_args_is_error :
+  forall (T : Type) (O : sops T) (of_N : N -> T) (eps tol : T) par (b : basis (T:=T)) (st : state (T:=T)) qs d ds e,
+  measure_args (nq st) (actual_qubits (nq st) qs) = Some e -> measure_n O of_N eps tol par b st qs (d :: ds) = Err e.
+Proof. exact @measure_n_invalid_args. Qed.
+(* a circuit run (or traced) on a state of another width is an error, whatever its gates - none included *)
+Theorem C05_execute_width_mismatch_is_error :
+  forall (G W : Type) (gapply : G -> W -> outcome W) (wnq : W -> N) (c : circuit (G:=G)) (w : W),
+  wnq w <> cn c -> execute gapply wnq c w = Err (InvalidNumberOfQubits (wnq w)) /\ trace_execution gapply wnq c w = Err (InvalidNumberOfQubits (wnq w)).
+Proof. exact @execute_width_mismatch. Qed.
+Print Assumptions C05_measure_args_iff. Print Assumptions C05_measure_invalid_args_is_error. Print Assumptions C05_execute_width_mismatch_is_error.
